@@ -294,6 +294,9 @@ def r04_4(ctx):
         ok_order = walks_prev and reads_buffer and collected and n_rev % 2 == 1
         r.ob("flush:buffers-oldest-first", ok_order, f.site,
              "the buffer chain is walked current -> previous (newest first) and %s" % ("emitted in reverse (oldest first)" if ok_order else "not emitted in reverse: inner (newer) content precedes outer (older) content (walk=%s collected=%s reversals=%d)" % (walks_prev, collected, n_rev)))
+        # end() flushes what was buffered as it is: no visitor is run on an element whose end tag never came
+        from .c15 import visitor_callers_ob
+        visitor_callers_ob(F, r, "flush:")
     ctx.run_rule("R04.4", "flush order at end of stream", body, floor=3)
 
 
